@@ -225,11 +225,11 @@ theorem stepWorld_okT {s : Sim} (hI : SInvT s) (op : Op) :
           refine ⟨_, rfl, ?_⟩
           dsimp only
           split
-          · refine ⟨Nat.le_succ _, fun e => absurd e (by simp), ?_⟩
+          · refine ⟨Nat.le_succ _, fun e => absurd e (by simp), rfl, ?_⟩
             intro ct _ hx
             unfold tHas at hx ⊢
             exact has_append_mono _ _ _ hx
-          · exact ⟨Nat.le_refl _, fun _ => rfl, fun _ _ x => x⟩
+          · exact ⟨Nat.le_refl _, fun _ => rfl, rfl, fun _ _ x => x⟩
   | deployReady k' =>
     simp only [stepWorld]
     split
@@ -287,6 +287,6 @@ theorem C06_permanent (es : List ExpInit) (ops : List Op) :
   refine ⟨fun t ht => (hI.1.1 t ht).2, ?_⟩
   intro i h hh k th hth
   obtain ⟨tc, h1, _, _, h4⟩ := (hI.2 i h hh).2 k th hth
-  exact ⟨tc, h1, h4⟩
+  exact ⟨tc, h1, h4.2⟩
 
 end Katib.Ctl
